@@ -145,7 +145,10 @@ CLASSES.update({
   'Protocol': dict(extern=True, path=None, bases=[], fields={}),
   'ClassFinder': dict(extern=True, path=None, bases=[], fields={}),
   # a generated <method>_result class and its instances, as far as the reply mapping looks at them
-  'ResultClass': dict(extern=True, path=None, bases=[], fields={'thrift_spec': 'any', 'g_void': 'bool'}, ghost=['g_void']),
+  'ResultClass': dict(extern=True, path=None, bases=[], fields={'thrift_spec': 'list[SpecEntry?]?', 'g_void': 'bool'}, ghost=['g_void']),
+  # one entry of a generated thrift_spec: (field id, type, name, type args, default); entry 0 describes `success` (None for void)
+  'SpecEntry': dict(extern=True, path=None, bases=[], listlike=['fid', 'ttype', 'name', 'targs', 'dflt'],
+                    fields={'fid': 'int', 'ttype': 'int', 'name': 'str', 'targs': 'any', 'dflt': 'any'}),
   'ThriftResult': dict(extern=True, path=None, bases=[], fields={'success': 'any', 'g_has_success': 'bool', 'g_cls': 'ResultClass'},
                        ghost=['g_has_success', 'g_cls'], maybe_attrs={'success': 'g_has_success'}),
   'TMemoryBuffer': dict(extern=True, path=None, bases=[], fields={'_buffer': 'any'}),
@@ -158,24 +161,42 @@ FUNCTIONS.update({
   # return value; a declared exception set -> that exception as error; a void result -> None, no error
   'MessageSerializer.DeserializeThriftCall': dict(
     file='scales/thrift/serializer.py', cls='MessageSerializer', params={'buf': 'any'}, returns='MethodReturnMessage',
-    locals={'result': 'ThriftResult?', 'result_cls': 'ResultClass?'},
-    requires=['allocated(self._FindClass) and allocated(self._protocol_factory)'],
-    ensures=[],
+    locals={'result': 'ThriftResult?', 'result_cls': 'ResultClass?', 'exceptions': 'list[SpecEntry?]', 'e': 'SpecEntry?',
+            'g_res': 'ThriftResult?', 'g_cls': 'ResultClass?', 'g_x': 'any'},
+    requires=['allocated(self._FindClass) and allocated(self._protocol_factory)',
+              # generated result classes: every entry after the first describes one declared exception
+              'forall_ref(c, ResultClass, implies(c.thrift_spec is not None, allocated(c.thrift_spec) and '
+              '           forall(k, 1, len(c.thrift_spec), c.thrift_spec[k] is not None and allocated(c.thrift_spec[k]))), c.thrift_spec)'],
+    ensures=[
+      # (1) an EXCEPTION message: the application exception is the error, recorded with a stack so that the dispatcher wraps it
+      'implies(g_mt == 3, result.error is not None and result.error == g_x and result.stack is not None and result.return_value is None)',
+      # (2) a success value is the return value
+      'implies(g_mt != 3 and g_res is not None and g_res.g_has_success and g_res.success is not None, result.return_value == g_res.success and result.error is None)',
+      # (3) otherwise a declared exception that is set is the error -- for void and non-void methods alike
+      'implies(g_mt != 3 and g_res is not None and not (g_res.g_has_success and g_res.success is not None) and g_cls.thrift_spec is not None and '
+      '        exists(k, 1, len(g_cls.thrift_spec), dyn_attr(g_res, g_cls.thrift_spec[k].name) is not None), '
+      '        result.error is not None and implies(truthy(result.error), result.stack is not None) and result.return_value is None and '
+      '        exists(k, 1, len(g_cls.thrift_spec), result.error == dyn_attr(g_res, g_cls.thrift_spec[k].name)))',
+      # (4) nothing set: a void method completed normally (None, no error); a non-void one is a missing result (an error, never a value)
+      'implies(g_mt != 3 and g_res is not None and not (g_res.g_has_success and g_res.success is not None) and '
+      '        (g_cls.thrift_spec is None or forall(k, 1, len(g_cls.thrift_spec), dyn_attr(g_res, g_cls.thrift_spec[k].name) is None)), '
+      '        result.return_value is None and ite(g_cls.g_void, result.error is None, result.error is not None and result.stack is not None))',
+      # (5) no result class at all (one-way): an empty reply
+      'implies(g_mt != 3 and g_res is None, result.return_value is None and result.error is None)',
+    ],
     modifies=['TMemoryBuffer._buffer', 'MethodReturnMessage.error', 'MethodReturnMessage.return_value', 'MethodReturnMessage.stack', '$cls',
-              'ThriftResult.g_cls', 'ThriftResult.g_has_success', 'ThriftResult.success'],
+              'ThriftResult.g_cls', 'ThriftResult.g_has_success', 'ThriftResult.success', 'list[SpecEntry?]'],
     allocates='any',
-    loops={0: dict(invariant=['result is not None and not (result.g_has_success and result.success is not None)'], modifies=[], allocates=False)},
+    loops={0: dict(invariant=['result is not None and result == g_res and not (result.g_has_success and result.success is not None)', 'g_mt != 3',
+                              'allocated(exceptions)', 'result_cls is not None and result_cls == g_cls and result_cls.thrift_spec is not None',
+                              'len(exceptions) == len(result_cls.thrift_spec) - 1',
+                              'forall(k, 0, len(exceptions), exceptions[k] == result_cls.thrift_spec[k + 1])',
+                              'forall(k, 1, _i0 + 1, dyn_attr(result, result_cls.thrift_spec[k].name) is None)'],
+                   modifies=[], allocates=False)},
     ghost=[
-      {'before': 'return MethodReturnMessage(error=x)', 'do': ['prove(msg_type == 3 and x is not None, "server-side-exception-becomes-the-error")']},
-      {'before': 'return MethodReturnMessage()', 'do': ['prove(result_cls is None or result.g_cls.g_void, "empty-reply-only-for-one-way-or-void")'] if False else
-                                                       ['g_empty = True']},
-      {'before': 'return MethodReturnMessage(return_value=result.success)', 'do': [
-        'prove(result.g_has_success and result.success is not None, "success-value-returned")']},
-      {'before': 'return MethodReturnMessage(error=attr_val)', 'do': ['prove(attr_val is not None, "declared-exception-becomes-the-error")']},
-      # nothing set in the result: for a void method that is the normal outcome (None, no error) --
-      # never an exception object handed back as the *return value*
-      {'before': "return MethodReturnMessage(error=TApplicationException(TApplicationException.MISSING_RESULT, '%s failed: unknown result' % fn_name))", 'do': [
-        'prove(not result.g_cls.g_void, "void-result-yields-None")']},
+      {'after': '(fn_name, msg_type, seq_id) = protocol.readMessageBegin()', 'do': ['g_mt = msg_type', 'g_res = None', 'g_cls = None', 'g_x = None']},
+      {'after': 'x = TApplicationException()', 'do': ['g_x = x']},
+      {'after': 'result.read(protocol)', 'do': ['g_res = result', 'g_cls = result_cls']},
     ],
     raises={'Exception': dict()},
     props=['C14'],
@@ -191,7 +212,7 @@ EXTERNS.update({
   'TApplicationException.read': dict(params=[('iprot', 'any')], may_raise=['Exception']),
   'ClassFinder.__call__': dict(params=[('name', 'any')], returns='ResultClass?'),
   'ResultClass.__call__': dict(params=[], returns='ThriftResult', fresh=True, allocates=True, modifies=['ThriftResult.g_cls', 'ThriftResult.g_has_success', 'ThriftResult.success'],
-                               ensures=['result.g_cls == self', 'result.g_has_success == (not self.g_void)'],
+                               ensures=['result is not None', 'result.g_cls == self', 'result.g_has_success == (not self.g_void)'],
                                notes='instantiates the generated result class: it has a success attribute unless the method is void'),
   'ThriftResult.read': dict(params=[('iprot', 'any')], may_raise=['Exception'], modifies=['ThriftResult.success'],
                             ensures=['forall_ref(r, ThriftResult, implies(r != self, r.success == old(r.success)), r.success)']),
